@@ -190,12 +190,16 @@ class JsonTables:
                 sh = decoder_shape(n.value)
                 if sh[1] is not None:
                     self.project_read[n.targets[0].attr] = sh + (n.value,)
-        # re-links:  for x in <container>: x.attr = <expr using lookups>
+        # re-links:  for x in <container>: x.attr = <expr using lookups>   (read off the normalised body: nested one-line helpers,
+        # bound-method aliases and loops over literal attribute names are expanded first)
+        from .astnorm import normalise_function
         ft = self.ctx.types.ftypes(rd)
-        for n in ast.walk(rd.node):
+        rdn = normalise_function(rd.node)
+        for n in ast.walk(rdn):
             if isinstance(n, ast.Assign) and len(n.targets) == 1 and isinstance(n.targets[0], ast.Attribute) and isinstance(n.targets[0].value, ast.Name) \
                     and n.targets[0].value.id != "self":
-                t = ft.type_of(n.targets[0].value)
+                from .astnorm import original
+                t = ft.type_of(original(n.targets[0].value) or n.targets[0].value)   # (loop-scoped types live on the source nodes)
                 cls = t[1] if t and t[0] == "obj" else None
                 if cls is None:
                     continue
@@ -212,7 +216,7 @@ class JsonTables:
                     shape = "id-relink"
                 pm = getattr(self, "_pm", None)
                 if pm is None:
-                    pm = self._pm = parent_map(rd.node)
+                    pm = self._pm = parent_map(rdn)
                 # statement form of the same thing:  if x.attr is not None: x.attr = <lookup by x.attr>[0]
                 # (when the saved reference is None there is nothing to re-link)
                 own_guard = None
@@ -226,7 +230,7 @@ class JsonTables:
                 self.relink[(cls, n.targets[0].attr)] = (shape, n)
                 g = pm.get(id(n))
                 cond = None
-                while g is not None and g is not rd.node:
+                while g is not None and g is not rdn:
                     if isinstance(g, (ast.If, ast.While, ast.Try)) and g is not own_guard:
                         cond = g
                     g = pm.get(id(g))
